@@ -574,8 +574,11 @@ class GenericPlainRegistry(Generic[QuantityT, UnitT], metaclass=RegistryMeta):
                 # ... and so may containers spelled with it, with a prefix or as a
                 # plural (get_dimensionality, get_compatible_units and
                 # get_root_units accept any spelling).
+                # (whatever the letter case: lookups may be case insensitive)
+                lowered = key.lower()
+
                 def mentions(units: UnitsContainer) -> bool:
-                    return any(key in name for name in units)
+                    return any(lowered in name.lower() for name in units)
 
                 cache = self._cache
                 for memo in (cache.dimensionality, cache.root_units):
